@@ -18,9 +18,35 @@ fn mode(b: SchemaBuilder<Query, Mutation, EmptySubscription>, m: &str) -> Schema
     match m { "disabled" => b.disable_introspection(), "only" => b.introspection_only(), _ => b }
 }
 
+fn dyn_exec(sm: &str, rm: &str, q: &str) -> (String, usize, Vec<String>) {
+    use async_graphql::dynamic as d;
+    let item = d::Object::new("Item").key("id").field(d::Field::new("id", d::TypeRef::named_nn(d::TypeRef::INT), |_| d::FieldFuture::new(async { Ok(Some(async_graphql::Value::from(1))) })));
+    let query = d::Object::new("Query").field(d::Field::new("value", d::TypeRef::named_nn(d::TypeRef::INT), |_| d::FieldFuture::new(async { RAN.fetch_add(1, Ordering::SeqCst); Ok(Some(async_graphql::Value::from(1))) })));
+    let mut b = d::Schema::build("Query", None, None).register(item).register(query).enable_federation()
+        .entity_resolver(|_| d::FieldFuture::new(async { RAN.fetch_add(1, Ordering::SeqCst); Ok(Some(d::FieldValue::list(vec![d::FieldValue::owned_any(0u8).with_type("Item")]))) }));
+    b = match sm { "disabled" => b.disable_introspection(), "only" => b.introspection_only(), _ => b };
+    let schema = b.finish().unwrap();
+    let mut req = Request::new(q);
+    req = match rm { "disabled" => req.disable_introspection(), "only" => req.only_introspection(), _ => req };
+    RAN.store(0, Ordering::SeqCst);
+    let resp = schema.execute(req).now_or_never().unwrap();
+    (resp.data.clone().into_json().unwrap().to_string(), RAN.load(Ordering::SeqCst), resp.errors.iter().map(|e| e.message.clone()).collect())
+}
+
 /// args {"schema_mode": "enabled"|"disabled"|"only", "req_mode": ..., "query": "...", "federation": bool}
 pub fn modes(args: &Value) -> Outcome {
     let sm = args["schema_mode"].as_str().unwrap(); let rm = args["req_mode"].as_str().unwrap();
+    if args["flavour"] == "dynamic" {
+        let q = args["query"].as_str().unwrap();
+        let (data, ran, errs) = dyn_exec(sm, rm, q);
+        let disabled = sm == "disabled" || rm == "disabled"; let only = sm == "only" || rm == "only";
+        let mut bad = Vec::new();
+        if disabled && (data.contains("\"queryType\"") || data.contains("\"kind\"") || data.contains("\"sdl\":\"")) { bad.push(format!("schema metadata served although introspection is disabled: {}", &data[..data.len().min(160)])); }
+        if only && ran > 0 { bad.push(format!("{} user / entity resolver(s) ran in introspection-only mode", ran)); }
+        if !disabled && !only && !errs.is_empty() { bad.push(format!("errors with introspection enabled: {:?}", errs)); }
+        if q.contains("{ __typename") && !q.contains("_entities") && !data.contains("\"__typename\":\"") { bad.push(format!("__typename did not resolve: {}", data)); }
+        return Outcome { holds: bad.is_empty(), observed: if bad.is_empty() { format!("data {} ran {}", &data[..data.len().min(120)], ran) } else { bad.join("; ") }, expected: "metadata only when enabled; resolvers only when not introspection-only; __typename always".into() };
+    }
     let mut b = mode(Schema::build(Query, Mutation, EmptySubscription), sm);
     if args["federation"].as_bool().unwrap_or(false) { b = b.enable_federation(); }
     let schema = b.finish();
@@ -41,7 +67,7 @@ pub fn modes(args: &Value) -> Outcome {
     // fully enabled: everything works
     if !disabled && !only && !resp.errors.is_empty() { bad.push(format!("errors with introspection enabled: {:?}", resp.errors.iter().map(|e| e.message.clone()).collect::<Vec<_>>())); }
     // __typename always resolves
-    if q.contains("__typename") && !data.contains("\"__typename\":\"") { bad.push(format!("__typename did not resolve: data {} errors {:?}", data, resp.errors.iter().map(|e| e.message.clone()).collect::<Vec<_>>())); }
+    if q.contains("{ __typename") && !q.contains("_entities") && !data.contains("\"__typename\":\"") { bad.push(format!("__typename did not resolve: data {} errors {:?}", data, resp.errors.iter().map(|e| e.message.clone()).collect::<Vec<_>>())); }
     // ordinary fields resolve unless introspection-only
     if !only && q.contains("value") && !q.contains("__schema") && !q.contains("__type(") && !q.contains("_service") && ran == 0 { bad.push("ordinary field did not resolve".into()); }
     Outcome { holds: bad.is_empty(), observed: if bad.is_empty() { format!("data {} ran {}", data, ran) } else { bad.join("; ") }, expected: "metadata only when enabled; resolvers only when not introspection-only; __typename always".into() }
@@ -57,6 +83,11 @@ pub fn inputs(_seed: u64, open: &[String]) -> impl Iterator<Item = Value> {
         let fed = q.contains("_service");
         if fed && skip_service && (s == "disabled" || r == "disabled") { continue; }
         out.push(json!({"schema_mode": s, "req_mode": r, "query": q, "federation": fed}));
+    } } }
+    let dqs = ["{ value }", "{ __typename value }", "{ __schema { queryType { name } } }", "{ __type(name: \"Query\") { kind } }", "{ _service { sdl } }", "{ _entities(representations: [{__typename: \"Item\", id: 1}]) { __typename } }"];
+    for s in ms { for r in ms { for q in dqs {
+        if q.contains("_entities") && (s == "only" || r == "only") && open.iter().any(|x| x == "C19-dynamic-entities-in-introspection-only") { continue; }
+        out.push(json!({"flavour": "dynamic", "schema_mode": s, "req_mode": r, "query": q}));
     } } }
     out.into_iter()
 }
